@@ -247,6 +247,9 @@ func GenIngressWorld(t *rapid.T, admin bool) *World {
 			b := genBackend(l+"def", g.Ns)
 			g.Default = &b
 		}
+		if rapid.Bool().Draw(t, l+"hosts") {
+			g.HostStyle = rapid.IntRange(1, 20).Draw(t, l+"hoststyle")
+		}
 		nr := rapid.IntRange(0, 3).Draw(t, l+"nr")
 		for r := 0; r < nr; r++ {
 			var paths []Backend
